@@ -147,10 +147,99 @@ func workload(r *ev.Run) ([]*Job, map[string]any, error) {
 			jobs = append(jobs, &Job{Kind: "crafted", ID: "crafted/" + c.name + "#" + fs.Label, Text: c.spec, Feat: fs})
 		}
 	}
+	// single-construct documents: one construct each and nothing else, so that a helper file or declaration the
+	// generator emits only "when some use exists" is needed by exactly one kind of use (client-only, server-only,
+	// all features, ogen's defaults)
+	for _, c := range singletonSpecs() {
+		for _, fs := range []FeatSet{fixed[0], fixed[2], fixed[3], fixed[5]} {
+			jobs = append(jobs, &Job{Kind: "crafted", ID: "single/" + c.name + "#" + fs.Label, Text: c.spec, Feat: fs})
+		}
+	}
 	rj, err := randomJobs(r)
 	if err != nil {
 		return nil, nil, err
 	}
 	jobs = append(jobs, rj...)
 	return jobs, info, nil
+}
+
+// singletonSpecs builds the single-construct documents.
+func singletonSpecs() []struct{ name, spec string } {
+	doc := func(op string, comps string) string {
+		if comps == "" {
+			comps = "{}"
+		}
+		return `{"openapi":"3.0.3","info":{"title":"t","version":"1"},"paths":{"/a":{"post":{"operationId":"a",` + op + `}}},"components":` + comps + `}`
+	}
+	ok := `"responses":{"200":{"description":"ok"}}`
+	param := func(in, extra, schema string) string {
+		name := "p"
+		path := ""
+		_ = path
+		return `"parameters":[{"name":"` + name + `","in":"` + in + `"` + extra + `,"schema":` + schema + `}],` + ok
+	}
+	body := func(media, schema string) string {
+		return `"requestBody":{"required":true,"content":{"` + media + `":{"schema":` + schema + `}}},` + ok
+	}
+	resp := func(media, schema string) string {
+		return `"responses":{"200":{"description":"ok","content":{"` + media + `":{"schema":` + schema + `}}}}`
+	}
+	strMap := `{"type":"object","additionalProperties":{"type":"string"}}`
+	obj := `{"type":"object","required":["a"],"properties":{"a":{"type":"string"},"b":{"type":"integer"}}}`
+	out := []struct{ name, spec string }{
+		{"query-free-form-map", doc(param("query", "", strMap), "")},
+		{"query-free-form-map-not-exploded", doc(param("query", `,"style":"form","explode":false`, strMap), "")},
+		{"query-struct-object", doc(param("query", "", obj), "")},
+		{"query-deep-object", doc(param("query", `,"style":"deepObject","explode":true`, obj), "")},
+		{"query-array", doc(param("query", "", `{"type":"array","items":{"type":"integer"}}`), "")},
+		{"query-array-pipe", doc(param("query", `,"style":"pipeDelimited","explode":false`, `{"type":"array","items":{"type":"string"}}`), "")},
+		{"query-json-content", doc(`"parameters":[{"name":"p","in":"query","content":{"application/json":{"schema":`+obj+`}}}],`+ok, "")},
+		{"header-array", doc(param("header", "", `{"type":"array","items":{"type":"string"}}`), "")},
+		{"header-object", doc(param("header", "", obj), "")},
+		{"cookie-scalar", doc(param("cookie", "", `{"type":"string","format":"uuid"}`), "")},
+		{"cookie-object", doc(param("cookie", `,"explode":false`, obj), "")},
+		{"query-default-value", doc(param("query", "", `{"type":"integer","default":7}`), "")},
+		{"query-validated", doc(param("query", "", `{"type":"string","minLength":2,"pattern":"^a+$"}`), "")},
+		{"query-lookahead-pattern", doc(param("query", "", `{"type":"string","pattern":"^(?=a)a+$"}`), "")},
+		{"query-enum", doc(param("query", "", `{"type":"string","enum":["a","b"]}`), "")},
+		{"query-date-time", doc(param("query", "", `{"type":"string","format":"date-time"}`), "")},
+		{"form-free-form-map", doc(body("application/x-www-form-urlencoded", strMap), "")},
+		{"form-struct", doc(body("application/x-www-form-urlencoded", obj), "")},
+		{"form-struct-with-array-and-object", doc(body("application/x-www-form-urlencoded", `{"type":"object","properties":{"a":{"type":"array","items":{"type":"string"}},"o":`+obj+`}}`), "")},
+		{"multipart-file", doc(body("multipart/form-data", `{"type":"object","required":["f"],"properties":{"f":{"type":"string","format":"binary"}}}`), "")},
+		{"multipart-files-and-map", doc(body("multipart/form-data", `{"type":"object","properties":{"f":{"type":"array","items":{"type":"string","format":"binary"}}},"additionalProperties":{"type":"string"}}`), "")},
+		{"multipart-struct", doc(body("multipart/form-data", obj), "")},
+		{"body-octet-stream", doc(body("application/octet-stream", `{"type":"string","format":"binary"}`), "")},
+		{"body-text-plain", doc(body("text/plain", `{"type":"string"}`), "")},
+		{"body-any", doc(body("application/json", `{}`), "")},
+		{"body-free-form-object", doc(body("application/json", `{"type":"object","additionalProperties":true}`), "")},
+		{"body-map-of-maps", doc(body("application/json", `{"type":"object","additionalProperties":{"type":"object","additionalProperties":{"type":"integer"}}}`), "")},
+		{"body-pattern-properties", doc(body("application/json", `{"type":"object","patternProperties":{"^x-":{"type":"string"}}}`), "")},
+		{"body-nullable-array", doc(body("application/json", `{"type":"array","nullable":true,"items":{"type":"string"}}`), "")},
+		{"body-array-of-arrays", doc(body("application/json", `{"type":"array","items":{"type":"array","items":{"type":"number"}}}`), "")},
+		{"body-primitive-sum", doc(body("application/json", `{"oneOf":[{"type":"string"},{"type":"integer"},{"type":"boolean"}]}`), "")},
+		{"body-object-sum-discriminator", doc(body("application/json", `{"oneOf":[{"$ref":"#/components/schemas/A"},{"$ref":"#/components/schemas/B"}],"discriminator":{"propertyName":"t"}}`), `{"schemas":{"A":{"type":"object","required":["t","x"],"properties":{"t":{"type":"string"},"x":{"type":"string"}}},"B":{"type":"object","required":["t","y"],"properties":{"t":{"type":"string"},"y":{"type":"integer"}}}}}`)},
+		{"body-any-of-objects", doc(body("application/json", `{"anyOf":[{"$ref":"#/components/schemas/A"},{"type":"string"}]}`), `{"schemas":{"A":{"type":"object","properties":{"x":{"type":"string"}}}}}`)},
+		{"body-all-of", doc(body("application/json", `{"allOf":[{"$ref":"#/components/schemas/A"},{"type":"object","properties":{"y":{"type":"integer","minimum":1}}}]}`), `{"schemas":{"A":{"type":"object","required":["x"],"properties":{"x":{"type":"string"}}}}}`)},
+		{"body-recursive", doc(body("application/json", `{"$ref":"#/components/schemas/N"}`), `{"schemas":{"N":{"type":"object","properties":{"next":{"$ref":"#/components/schemas/N"},"v":{"type":"string","maxLength":3}}}}}`)},
+		{"body-string-formats", doc(body("application/json", `{"type":"object","properties":{"a":{"type":"string","format":"uuid"},"b":{"type":"string","format":"ipv4"},"c":{"type":"string","format":"uri"},"d":{"type":"string","format":"duration"},"e":{"type":"string","format":"byte"},"f":{"type":"integer","format":"unix-milli"},"g":{"type":"string","format":"int64"},"h":{"type":"string","format":"date"},"i":{"type":"string","format":"mac"}}}`), "")},
+		{"body-defaults", doc(body("application/json", `{"type":"object","properties":{"a":{"type":"string","default":"x"},"b":{"type":"array","items":{"type":"integer"},"default":[1,2]},"c":{"type":"number","default":0.5,"nullable":true}}}`), "")},
+		{"body-json-streaming", doc(`"requestBody":{"required":true,"content":{"application/json":{"x-ogen-json-streaming":true,"schema":`+obj+`}}},`+ok, "")},
+		{"response-headers-only", doc(`"responses":{"200":{"description":"ok","headers":{"X-A":{"schema":{"type":"integer"}},"X-B":{"required":true,"schema":{"type":"array","items":{"type":"string"}}}}}}`, "")},
+		{"response-octet-stream", doc(resp("application/octet-stream", `{"type":"string","format":"binary"}`), "")},
+		{"response-text-and-json", doc(`"responses":{"200":{"description":"ok","content":{"text/plain":{"schema":{"type":"string"}},"application/json":{"schema":`+obj+`}}}}`, "")},
+		{"response-patterns", doc(`"responses":{"2XX":{"description":"ok","content":{"application/json":{"schema":`+obj+`}}},"4XX":{"description":"e","content":{"application/json":{"schema":{"type":"string"}}}},"default":{"description":"d"}}`, "")},
+		{"response-default-only", doc(`"responses":{"default":{"description":"d","content":{"application/json":{"schema":`+obj+`}}}}`, "")},
+		{"response-no-content-many", doc(`"responses":{"200":{"description":"a"},"201":{"description":"b"},"404":{"description":"c"}}`, "")},
+		{"response-examples-only", doc(`"responses":{"200":{"description":"ok","content":{"application/json":{"schema":{"type":"string"},"examples":{"a":{"value":"x"},"b":{"value":"y"}}}}}}`, "")},
+		{"security-basic-only", doc(`"security":[{"b":[]}],`+ok, `{"securitySchemes":{"b":{"type":"http","scheme":"basic"}}}`)},
+		{"security-oauth2-only", doc(`"security":[{"o":["r","w"]}],`+ok, `{"securitySchemes":{"o":{"type":"oauth2","flows":{"clientCredentials":{"tokenUrl":"https://x/t","scopes":{"r":"r","w":"w"}}}}}}`)},
+		{"security-cookie-key-only", doc(`"security":[{"c":[]}],`+ok, `{"securitySchemes":{"c":{"type":"apiKey","in":"cookie","name":"sid"}}}`)},
+		{"security-custom-only", doc(`"security":[{"x":[]}],`+ok, `{"securitySchemes":{"x":{"type":"apiKey","in":"header","name":"X","x-ogen-custom-security":true}}}`)},
+	}
+	out = append(out, struct{ name, spec string }{"path-params-only", `{"openapi":"3.0.3","info":{"title":"t","version":"1"},"paths":{"/a/{x}/{y}.json":{"get":{"operationId":"a","parameters":[{"name":"x","in":"path","required":true,"schema":{"type":"array","items":{"type":"integer"}}},{"name":"y","in":"path","required":true,"style":"matrix","schema":` + obj + `}],` + ok + `}}}}`})
+	out = append(out, struct{ name, spec string }{"webhook-only", `{"openapi":"3.1.0","info":{"title":"t","version":"1"},"paths":{},"webhooks":{"e":{"post":{"operationId":"hook","requestBody":{"content":{"application/json":{"schema":` + obj + `}}},"responses":{"200":{"description":"ok"}}}}}}`})
+	out = append(out, struct{ name, spec string }{"servers-with-variables-only", `{"openapi":"3.0.3","info":{"title":"t","version":"1"},"servers":[{"url":"https://{region}.example.com/{base}","x-ogen-server-name":"prod","variables":{"region":{"default":"eu","enum":["eu","us"]},"base":{"default":"v1"}}}],"paths":{"/a":{"get":{"operationId":"a",` + ok + `}}}}`})
+	out = append(out, struct{ name, spec string }{"operation-groups-only", `{"openapi":"3.0.3","info":{"title":"t","version":"1"},"paths":{"/a":{"get":{"operationId":"a","x-ogen-operation-group":"Alpha",` + ok + `}},"/b":{"get":{"operationId":"b","x-ogen-operation-group":"Beta",` + ok + `}}}}`})
+	return out
 }
